@@ -339,6 +339,11 @@ def extract_guards(src: Path) -> str:
             if left is not None and ltxt != left:
                 fail(f"guard {lean}", f"left operand is `{ltxt}`, expected `{left}`")
                 continue
+            if lean == "bufferPushCmp" and ast.unparse(c.comparators[0]) != needle:
+                # the model compares with the module constant itself (HC.Proto.H2Send.HIGH): a mark computed from anything else
+                # (the peer's frame size, an instance attribute) is not what the theorems are about
+                fail(f"guard {lean}", f"right operand is `{ast.unparse(c.comparators[0])}`, expected `{needle}`")
+                continue
             out.append(f"def {lean} : Cmp := .{CMPNAME[type(c.ops[0])]}   -- `{ast.unparse(c)}` in {rel}")
         except Exception as e:
             fail(f"guard {lean}", str(e))
@@ -707,6 +712,29 @@ def extract_atomic(src: Path) -> str:
         else:
             out.append("def h2SendDataTry : List String := [" + ", ".join(q(x) for x in _calls_in_order(tries[0].body)) + "]")
             out.append("def h2SendDataExcept : List String := [" + ", ".join(q(x) for x in _calls_in_order(tries[0].handlers[0].body)) + "]")
+            # the recovery from a priority tree that schedules a stream it does not know (`except priority.MissingStreamError:` inside
+            # the handler): a fresh tree, then one loop over `self.stream_buffers` - what is done to each buffered stream, in order
+            inner = [h for n in ast.walk(tries[0].handlers[0]) if isinstance(n, ast.Try) for h in n.handlers
+                     if h.type is not None and "MissingStreamError" in ast.unparse(h.type)]
+            loops = [st for st in (inner[0].body if len(inner) == 1 else []) if isinstance(st, ast.For)]
+            fresh = [st for st in (inner[0].body if len(inner) == 1 else []) if isinstance(st, ast.Assign)
+                     and ast.unparse(st).replace(" ", "") == "self.priority=priority.PriorityTree()"]
+            if len(inner) != 1 or len(loops) != 1 or len(fresh) != 1 or len(inner[0].body) != 2 or ast.unparse(loops[0].iter) != "self.stream_buffers" \
+                    or any(isinstance(n, (ast.Await, ast.If, ast.Try)) for n in ast.walk(loops[0])):
+                fail("h2SendDataRebuild", "the MissingStreamError recovery of _send_data is not `self.priority = priority.PriorityTree()` followed by one "
+                                          "plain loop over self.stream_buffers")
+            else:
+                var = ast.unparse(loops[0].target)
+                stmts = [ast.unparse(st) for st in loops[0].body]
+                known = {f"self.priority.insert_stream({var})": "insert", f"self.priority.block({var})": "block", f"self.priority.unblock({var})": "unblock"}
+                if any(s_ not in known for s_ in stmts) or not stmts or known[stmts[0]] != "insert" or [known[s_] for s_ in stmts].count("insert") != 1:
+                    fail("h2SendDataRebuild", f"loop body {stmts} is not insert_stream followed by block / unblock calls on the loop variable")
+                else:
+                    kinds = [known[s_] for s_ in stmts]
+                    out.append("def h2SendDataRebuild : List String := [" + ", ".join(q(k) for k in kinds) + "]   -- per buffered stream, on the fresh tree")
+                    # priority inserts a stream active (unblocked); the last block / unblock call decides
+                    blocked = [k for k in kinds if k != "insert"][-1:] == ["block"]
+                    out.append(f"def h2RebuildBlocks : Bool := {'true' if blocked else 'false'}   -- are the re-inserted streams left blocked?")
         fn3 = find_def(h2tree, "H2Protocol", "send_task")
         out.append("def h2SendTask : List String := [" + ", ".join(q(x) for x in _calls_in_order(fn3.body)) + "]")  # type: ignore
         fn4 = find_def(h2tree, "StreamBuffer", "push")
@@ -1332,6 +1360,162 @@ def extract_app_exit(src: Path) -> str:
                 fail(f"app_send {mtype}", "REQUEST-state branch not found")
     except Exception as e:
         fail("app_send", f"{type(e).__name__}: {e}")
+
+    # ---- HTTPStream.app_send, `message is None` (the application has ended): what is sent in which state of the response.
+    # The branch is evaluated for each of the four states (its tests may only look at `self.state`), giving
+    # `httpExitActs : Http.St -> List XAct`; everything must sit under `if not self.closed:`.
+    try:
+        fn = find_def(parse(src / "protocol/http_stream.py"), "HTTPStream", "app_send")
+        top = next((st for st in fn.body if isinstance(st, ast.If) and ast.unparse(st.test) == "message is None"), None)  # type: ignore
+        states = ["REQUEST", "RESPONSE", "TRAILERS", "CLOSED"]
+        sends = {"Response": ".response", "Body": ".body", "EndBody": ".endBody", "Trailers": ".trailers", "StreamClosed": ".streamClosed"}
+
+        class Unknown(Exception):
+            pass
+
+        def const_state(n: ast.AST) -> str:
+            t = ast.unparse(n)
+            if t.startswith("ASGIHTTPState.") and t.split(".")[1] in states:
+                return t.split(".")[1]
+            raise Unknown(f"not a state constant: `{t}`")
+
+        def ev(n: ast.AST, state: str) -> bool:
+            if isinstance(n, ast.UnaryOp) and isinstance(n.op, ast.Not):
+                return not ev(n.operand, state)
+            if isinstance(n, ast.BoolOp):
+                vals = [ev(v, state) for v in n.values]
+                return all(vals) if isinstance(n.op, ast.And) else any(vals)
+            if isinstance(n, ast.Compare) and len(n.ops) == 1 and ast.unparse(n.left) == "self.state":
+                op, rhs = n.ops[0], n.comparators[0]
+                if isinstance(op, (ast.Eq, ast.Is)):
+                    return state == const_state(rhs)
+                if isinstance(op, (ast.NotEq, ast.IsNot)):
+                    return state != const_state(rhs)
+                if isinstance(op, (ast.In, ast.NotIn)) and isinstance(rhs, (ast.Tuple, ast.List, ast.Set)):
+                    member = state in [const_state(e) for e in rhs.elts]
+                    return member if isinstance(op, ast.In) else not member
+            raise Unknown(f"test not over self.state: `{ast.unparse(n)[:80]}`")
+
+        def run_exit(stmts: List[ast.stmt], state: str, acc: List[str]) -> None:
+            for st in stmts:
+                if isinstance(st, ast.If):
+                    run_exit(st.body if ev(st.test, state) else st.orelse, state, acc)
+                elif isinstance(st, ast.Expr) and isinstance(st.value, ast.Await) and isinstance(st.value.value, ast.Call):
+                    call = st.value.value
+                    f = ast.unparse(call.func)
+                    arg = ast.unparse(call.args[0].func) if call.args and isinstance(call.args[0], ast.Call) else ""
+                    if f == "self._send_error_response" and len(call.args) == 1 and isinstance(call.args[0], ast.Constant) and isinstance(call.args[0].value, int):
+                        acc.append(f".errorResponse {call.args[0].value}")
+                    elif f == "self._send_closed":
+                        acc.append(".sendClosed")
+                    elif f == "self.send" and arg in sends:
+                        acc.append(sends[arg])
+                    else:
+                        raise Unknown(f"call not recognised: `{ast.unparse(st)[:80]}`")
+                elif isinstance(st, ast.Pass) or (isinstance(st, ast.Expr) and isinstance(st.value, ast.Constant)):
+                    continue
+                else:
+                    raise Unknown(f"statement not recognised: `{ast.unparse(st)[:80]}`")
+
+        if top is None or len(top.body) != 1 or not isinstance(top.body[0], ast.If) or ast.unparse(top.body[0].test) != "not self.closed" or top.body[0].orelse:
+            fail("httpExitActs", "`if message is None:` is not exactly `if not self.closed: …`")
+        else:
+            try:
+                arms = []
+                for state in states:
+                    acc2: List[str] = []
+                    run_exit(top.body[0].body, state, acc2)
+                    arms.append(f"  | .{state.lower()} => [{', '.join(acc2)}]")
+                out.append("def httpExitActs : HC.Stream.Http.St → List XAct\n" + "\n".join(arms))
+            except Unknown as e:
+                fail("httpExitActs", str(e))
+    except Exception as e:
+        fail("httpExitActs", f"{type(e).__name__}: {e}")
+
+    # ---- WSStream.app_send: the branch `message["type"] == "websocket.close" and self.state == ASGIWebsocketState.CONNECTED`
+    #      as a straight-line `WStep` program (F63: the state may change only once the close frame has been produced, and must
+    #      be CLOSED before the first await after that).  Both statement orders are recognised; the theorems decide.
+    try:
+        what = "wsCloseBranch"
+        fn = find_def(parse(src / "protocol/ws_stream.py"), "WSStream", "app_send")
+        ws_states = {"HANDSHAKE": ".handshake", "CONNECTED": ".connected", "RESPONSE": ".response", "CLOSED": ".closed", "HTTPCLOSED": ".httpClosed"}
+
+        def builds_frame(n: ast.AST) -> bool:
+            u = ast.unparse(n)
+            return "self.connection.send(" in u and "CloseConnection(" in u
+
+        def wlin(stmts: List[ast.stmt], acc: List[str]) -> bool:
+            for st in stmts:
+                u = ast.unparse(st)
+                if isinstance(st, ast.Try):
+                    # `try: data = self.connection.send(CloseConnection(…)) except LocalProtocolError: data = None | pass`
+                    handlers_ok = all(h.type is not None and ast.unparse(h.type).split(".")[-1] == "LocalProtocolError"
+                                      and all(isinstance(b, ast.Pass) or (isinstance(b, ast.Assign) and isinstance(b.value, ast.Constant))
+                                              for b in h.body) for h in st.handlers)
+                    if not handlers_ok or st.finalbody or len(st.handlers) != 1:
+                        fail(what, f"try statement not recognised: `{u[:80]}`")
+                        return False
+                    if not wlin(st.body, acc) or not wlin(st.orelse, acc):
+                        return False
+                elif isinstance(st, ast.If):
+                    if "await" in ast.unparse(st.test) or "self.state" in ast.unparse(st.test) or st.orelse:
+                        fail(what, f"if statement not recognised: `{u[:80]}`")
+                        return False
+                    if not wlin(st.body, acc):
+                        return False
+                elif isinstance(st, (ast.Assign, ast.AnnAssign)) and (isinstance(st, ast.AnnAssign) or len(st.targets) == 1):
+                    tgt = ast.unparse(st.target if isinstance(st, ast.AnnAssign) else st.targets[0])
+                    val = "" if st.value is None else ast.unparse(st.value)
+                    if tgt == "self.state":
+                        name = val.split(".")[-1]
+                        if not val.startswith("ASGIWebsocketState.") or name not in ws_states:
+                            fail(what, f"state assignment not recognised: `{u[:80]}`")
+                            return False
+                        acc.append(f".setState {ws_states[name]}")
+                    elif tgt.startswith("self.") or "await" in val:
+                        fail(what, f"assignment not recognised: `{u[:80]}`")
+                        return False
+                    elif st.value is not None and builds_frame(st.value):
+                        acc.append(".buildFrame")
+                    elif "self.connection.send(" in val:
+                        fail(what, f"assignment not recognised: `{u[:80]}`")
+                        return False
+                    else:
+                        acc.append(".prepare")
+                elif isinstance(st, ast.Expr) and isinstance(st.value, ast.Await) and isinstance(st.value.value, ast.Call):
+                    call = st.value.value
+                    f = ast.unparse(call.func)
+                    arg = ast.unparse(call.args[0].func) if call.args and isinstance(call.args[0], ast.Call) else ""
+                    if f == "self._send_wsproto_event" and len(call.args) == 1:
+                        acc.append(".sendEvent")
+                    elif f == "self.send" and arg == "Data":
+                        acc.append(".sendData")
+                    elif f == "self.send" and arg == "EndData":
+                        acc.append(".sendEndData")
+                    else:
+                        fail(what, f"call not recognised: `{u[:80]}`")
+                        return False
+                else:
+                    fail(what, f"statement not recognised: `{u[:80]}`")
+                    return False
+            return True
+
+        branches = [n for n in ast.walk(fn) if isinstance(n, ast.If)  # type: ignore
+                    and "message['type'] == 'websocket.close'" in ast.unparse(n.test)
+                    and "self.state == ASGIWebsocketState.CONNECTED" in ast.unparse(n.test)]
+        if len(branches) != 1:
+            fail(what, f"expected one CONNECTED-state branch for websocket.close in WSStream.app_send (found {len(branches)})")
+        else:
+            acc2: List[str] = []
+            if wlin(branches[0].body, acc2):
+                frames = sum(1 for a in acc2 if a in (".buildFrame", ".sendEvent"))
+                if frames != 1:
+                    fail(what, f"expected exactly one statement that builds the close frame, found {frames}: {acc2}")
+                else:
+                    out.append("/-- `WSStream.app_send`, `websocket.close` while CONNECTED, statement by statement -/")
+                    out.append("def wsCloseBranch : List WStep := [" + ", ".join(acc2) + "]")
+    except Exception as e:
+        fail("wsCloseBranch", f"{type(e).__name__}: {e}")
     out += ["end HC.Extracted.AppExit", ""]
     return "\n".join(out)
 
@@ -1665,6 +1849,174 @@ def extract_lifespan_send(src: Path) -> str:
     return "\n".join(out)
 
 
+def extract_lifespan_sites(src: Path) -> str:
+    """C14: (a) the `except` chain around `await self.app(...)` in `Lifespan.handle_lifespan` of both workers - which classes are
+    re-raised as they are, which are caught, and how a caught exception GROUP is searched for a lifespan failure / cancellation
+    before the application is declared unsupported (`error.subgroup(classes)` searches every level of the group; a scan of
+    `error.exceptions` only the direct members); (b) the `state` handed to every connection's ProtocolWrapper in
+    `TCPServer.run` and to TCPServer by `worker_serve` (a copy made there unconditionally, or the dict itself).
+    The definitions are always written (an unrecognised shape as `.unrecognised` + an EXTRACT-FAIL line), so that only the
+    theorems that are about them stop building."""
+    out = ["/- GENERATED by tools/extract.py — Lifespan.handle_lifespan (except chain) and the per-connection state argument of TCPServer.run, both workers — do not edit -/",
+           "namespace HC.Extracted.LifespanSites",
+           "/-- the exception classes the `except` clauses of `handle_lifespan` name -/",
+           "inductive Cls | lifespanFailure | cancelled | group | exception | other (name : String)",
+           "deriving Repr, DecidableEq",
+           "/-- what the clause that catches exception groups does with one before it declares the application unsupported:\n"
+           "    `sub = error.subgroup(classes); if sub is not None: raise sub` (a search through every level of the group),\n"
+           "    a scan of `error.exceptions` (the direct members only) followed by a bare `raise`, or nothing -/",
+           "inductive GroupSearch | subgroup (classes : List Cls) | directMembers (classes : List Cls) | notSearched | unrecognised",
+           "deriving Repr, DecidableEq",
+           "/-- `try: await self.app(…) except <reraise>: raise except <caught> as error: <search>; self.supported = False …` -/",
+           "structure EscapeHandler where\n  reraise : List Cls\n  caught : List Cls\n  search : GroupSearch\n  marksUnsupported : Bool",
+           "deriving Repr, DecidableEq"]
+
+    def classes(node: Optional[ast.AST], cancelled: str) -> Optional[List[str]]:
+        if node is None:
+            return None
+        elts = node.elts if isinstance(node, ast.Tuple) else [node]
+        names = {"LifespanFailureError": ".lifespanFailure", cancelled: ".cancelled", "BaseExceptionGroup": ".group", "Exception": ".exception"}
+        res = []
+        for e in elts:
+            if not isinstance(e, (ast.Name, ast.Attribute)):
+                return None
+            u = ast.unparse(e)
+            res.append(names.get(u, f".other {q(u)}"))
+        return res
+
+    def lst(cs: List[str]) -> str:
+        return "[" + ", ".join(cs) + "]"
+
+    for worker, cancelled in (("asyncio", "asyncio.CancelledError"), ("trio", "trio.Cancelled")):
+        item = f"{worker}EscapeHandler"
+        bad = "{ reraise := [], caught := [], search := .unrecognised, marksUnsupported := false }"
+        text = bad
+        try:
+            fn = find_def(parse(src / worker / "lifespan.py"), "Lifespan", "handle_lifespan")
+            tries = [n for n in ast.walk(fn) if isinstance(n, ast.Try) and any("self.app(" in ast.unparse(st) for st in n.body)] if fn is not None else []
+            if len(tries) != 1 or len(tries[0].body) != 1 or not ast.unparse(tries[0].body[0]).startswith("await self.app("):
+                fail(item, "handle_lifespan is not one `try: await self.app(…)`")
+            else:
+                hs = tries[0].handlers
+                ok = len(hs) == 2
+                re_cs = classes(hs[0].type, cancelled) if ok else None
+                ca_cs = classes(hs[1].type, cancelled) if ok else None
+                if not ok or re_cs is None or ca_cs is None:
+                    fail(item, f"expected two `except` clauses naming classes, found {[ast.unparse(h.type) if h.type is not None else None for h in hs]}")
+                elif not (len(hs[0].body) == 1 and isinstance(hs[0].body[0], ast.Raise) and hs[0].body[0].exc is None):
+                    fail(item, f"the first clause `except {ast.unparse(hs[0].type)}` does `{'; '.join(ast.unparse(x) for x in hs[0].body)[:100]}`, not a bare raise")
+                else:
+                    var = hs[1].name
+                    body = list(hs[1].body)
+                    search = None
+                    rest = body
+                    isgrp = f"isinstance({var}, BaseExceptionGroup)"
+                    first = body[0] if body else None
+                    if isinstance(first, ast.If) and not first.orelse and ast.unparse(first.test) == isgrp and len(first.body) == 2:
+                        # if isinstance(error, BaseExceptionGroup): X = error.subgroup(<classes>); if X is not None: raise X
+                        a, b = first.body
+                        if (isinstance(a, ast.Assign) and len(a.targets) == 1 and isinstance(a.targets[0], ast.Name) and isinstance(a.value, ast.Call)
+                                and ast.unparse(a.value.func) == f"{var}.subgroup" and len(a.value.args) == 1 and not a.value.keywords):
+                            x = a.targets[0].id
+                            cs = classes(a.value.args[0], cancelled)
+                            if (cs is not None and isinstance(b, ast.If) and not b.orelse and ast.unparse(b.test) == f"{x} is not None"
+                                    and [ast.unparse(y) for y in b.body] == [f"raise {x}"]):
+                                search, rest = f".subgroup {lst(cs)}", body[1:]
+                    elif isinstance(first, ast.If) and not first.orelse and [ast.unparse(y) for y in first.body] == ["raise"]:
+                        # if isinstance(error, BaseExceptionGroup) and any(isinstance(v, <classes>) for v in error.exceptions): raise
+                        t = first.test
+                        if isinstance(t, ast.BoolOp) and isinstance(t.op, ast.And) and len(t.values) == 2 and ast.unparse(t.values[0]) == isgrp:
+                            c = t.values[1]
+                            if (isinstance(c, ast.Call) and ast.unparse(c.func) == "any" and len(c.args) == 1 and isinstance(c.args[0], ast.GeneratorExp)
+                                    and len(c.args[0].generators) == 1 and not c.args[0].generators[0].ifs
+                                    and ast.unparse(c.args[0].generators[0].iter) == f"{var}.exceptions"):
+                                g = c.args[0]
+                                v = ast.unparse(g.generators[0].target)
+                                e = g.elt
+                                if (isinstance(e, ast.Call) and ast.unparse(e.func) == "isinstance" and len(e.args) == 2 and ast.unparse(e.args[0]) == v):
+                                    cs = classes(e.args[1], cancelled)
+                                    if cs is not None:
+                                        search, rest = f".directMembers {lst(cs)}", body[1:]
+                    elif first is not None and ast.unparse(first) == "self.supported = False":
+                        search = ".notSearched"
+                    if search is None:
+                        fail(item, f"the clause `except {ast.unparse(hs[1].type)} as {var}` starts with `{ast.unparse(first)[:160] if first is not None else ''}`: "
+                                   "not a recognised search of the group")
+                        search = ".unrecognised"
+                    marks = bool(rest) and ast.unparse(rest[0]) == "self.supported = False"
+                    # no other raise / return in what follows (log lines only)
+                    if any(isinstance(n, (ast.Raise, ast.Return)) for st in rest for n in ast.walk(st)):
+                        fail(item, "a raise / return after the search of the group")
+                        search = ".unrecognised"
+                    text = (f"{{ reraise := {lst(re_cs)}, caught := {lst(ca_cs)},\n    search := {search}, marksUnsupported := {'true' if marks else 'false'} }}")
+        except Exception as e:
+            fail(item, f"{type(e).__name__}: {e}")
+        out.append(f"def {item} : EscapeHandler :=\n  {text}")
+
+    out += ["/-- a `state` argument: a fresh copy made at that place on every evaluation (`ConnectionState(<dict>.copy())`), the dict\n"
+            "    itself, or anything else -/",
+            "inductive StateArg | copy | shared | unrecognised",
+            "deriving Repr, DecidableEq"]
+
+    def state_arg(node: ast.AST, name: str) -> Optional[str]:
+        u = ast.unparse(node)
+        if u == f"ConnectionState({name}.copy())":
+            return ".copy"
+        if u == name:
+            return ".shared"
+        return None
+
+    for worker in ("asyncio", "trio"):
+        item = f"{worker}ConnStateArg"
+        val = None
+        try:
+            tree = parse(src / worker / "tcp_server.py")
+            run = find_def(tree, "TCPServer", "run")
+            init = find_def(tree, "TCPServer", "__init__")
+            calls = [n for n in ast.walk(run) if isinstance(n, ast.Call) and ast.unparse(n.func) == "ProtocolWrapper"] if run is not None else []
+            cls = find_def(tree, "TCPServer")
+            assigns = [n for n in ast.walk(cls) if isinstance(n, (ast.Assign, ast.AugAssign, ast.AnnAssign))
+                       and any(ast.unparse(t) == "self.state" for t in (n.targets if isinstance(n, ast.Assign) else [n.target]))] if cls is not None else []
+            if len(calls) != 1 or len(calls[0].args) < 5 or calls[0].keywords:
+                fail(item, "TCPServer.run does not build exactly one ProtocolWrapper(app, config, context, task_group, <state>, …)")
+            elif init is None or len(assigns) != 1 or ast.unparse(assigns[0]) != "self.state = state" or assigns[0] not in list(ast.walk(init)):
+                fail(item, "`self.state` is not assigned exactly once, as `self.state = state` in TCPServer.__init__")
+            else:
+                val = state_arg(calls[0].args[4], "self.state")
+                if val is None:
+                    fail(item, f"the connection state is `{ast.unparse(calls[0].args[4])[:120]}`, neither `ConnectionState(self.state.copy())` nor `self.state`")
+        except Exception as e:
+            fail(item, f"{type(e).__name__}: {e}")
+        out.append(f"def {item} : StateArg := {val or '.unrecognised'}   -- the 5th argument of ProtocolWrapper(…) in {worker}/tcp_server.py TCPServer.run")
+    for worker in ("asyncio", "trio"):
+        item = f"{worker}ServeStateArg"
+        val = None
+        try:
+            fn = find_def(parse(src / worker / "run.py"), "worker_serve")
+            calls = [n for n in ast.walk(fn) if isinstance(n, ast.Call) and ast.unparse(n.func) in ("TCPServer", "partial") and n.args
+                     and (ast.unparse(n.func) == "TCPServer" or ast.unparse(n.args[0]) == "TCPServer")] if fn is not None else []
+            inits = [n for n in ast.walk(fn) if isinstance(n, (ast.Assign, ast.AnnAssign)) and ast.unparse(n.targets[0] if isinstance(n, ast.Assign) else n.target) == "lifespan_state"] if fn is not None else []
+            if len(calls) != 1:
+                fail(item, "worker_serve does not build TCPServer at exactly one place")
+            elif len(inits) != 1 or ast.unparse(inits[0].value) != "{}":
+                fail(item, "`lifespan_state` is not assigned exactly once, as `{}`")
+            else:
+                args = calls[0].args if ast.unparse(calls[0].func) == "TCPServer" else calls[0].args[1:]
+                # asyncio: TCPServer(app, loop, config, context, <state>, reader, writer); trio: partial(TCPServer, app, config, context, <state>)
+                idx = 4 if worker == "asyncio" else 3
+                if len(args) <= idx:
+                    fail(item, f"TCPServer is given {len(args)} positional arguments")
+                else:
+                    val = state_arg(args[idx], "lifespan_state")
+                    if val is None:
+                        fail(item, f"TCPServer is given the state `{ast.unparse(args[idx])[:120]}`")
+        except Exception as e:
+            fail(item, f"{type(e).__name__}: {e}")
+        out.append(f"def {item} : StateArg := {val or '.unrecognised'}   -- the `state` worker_serve hands to TCPServer in {worker}/run.py")
+    out += ["end HC.Extracted.LifespanSites", ""]
+    return "\n".join(out)
+
+
 def main() -> int:
     ap = argparse.ArgumentParser()
     ap.add_argument("--repo", default="/repo")
@@ -1676,7 +2028,7 @@ def main() -> int:
     for name, fn in [("Cli", extract_cli), ("Consts", extract_consts), ("Guards", extract_guards), ("Excepts", extract_excepts),
                      ("H11Tables", extract_h11_tables), ("Limits", extract_limits), ("Atomic", extract_atomic), ("Runtime", extract_runtime),
                      ("AppExit", extract_app_exit), ("H2Init", extract_h2_init), ("WsGuards", extract_ws_guards),
-                     ("LifespanSend", extract_lifespan_send)]:
+                     ("LifespanSend", extract_lifespan_send), ("LifespanSites", extract_lifespan_sites)]:
         CURRENT[0] = name
         try:
             text = fn(src)
@@ -1710,6 +2062,14 @@ def main() -> int:
         print(f"EXTRACT ReqGlue.lean {'updated' if changed else 'unchanged'}")
     except Exception as e:
         fail("ReqGlue", f"{type(e).__name__}: {e}")
+    # C13: protocol selection - ProtocolWrapper.__init__, _check_protocol, stream-class choices, refused h2c upgrade (tools/extract_select.py)
+    CURRENT[0] = "Select"
+    try:
+        import extract_select
+        changed = write_if_changed(outd / "Select.lean", extract_select.run(src, sys.modules[__name__]))
+        print(f"EXTRACT Select.lean {'updated' if changed else 'unchanged'}")
+    except Exception as e:
+        fail("Select", f"{type(e).__name__}: {e}")
     # C17 / C19 / C20: object / key / filter choices of the WSGI wrapper, Config.from_object and the HTTPS redirect
     # (tools/extract_pure.py; one generated module and EXTRACT-FAIL tag per property)
     CURRENT[0] = "PureSites"
